@@ -1,3 +1,326 @@
+/-
+Helper lemmas for C12: `writeAt` / `fillZero` composition, the wire form of raw and typed
+attributes, and the builder's attribute loop.
+-/
 import StunVerif.Msg.Builder
+import StunVerif.Lemmas.Attr
 namespace StunVerif
+set_option linter.unusedSimpArgs false
+
+/-! ### padding arithmetic -/
+
+theorem paddedAttrLen_eq (n : Nat) : paddedAttrLen n = round4 n := by
+  unfold paddedAttrLen round4 pad4
+  split <;> omega
+
+theorem pad4_eq_zero {n : Nat} (h : n % 4 = 0) : pad4 n = 0 := by unfold pad4; omega
+
+/-! ### `writeAt` / `fillZero` -/
+
+theorem writeAt_pre (pre rest src : Bytes) (off : Nat) (ho : off = pre.length)
+    (hs : src.length ≤ rest.length) :
+    writeAt (pre ++ rest) off src = some (pre ++ src ++ rest.drop src.length) := by
+  subst ho
+  unfold writeAt
+  rw [if_pos (by simp; omega)]
+  simp
+
+theorem fillZero_pre (pre rest : Bytes) (lo hi : Nat) (ho : lo = pre.length) (hlh : lo ≤ hi)
+    (hs : hi - lo ≤ rest.length) :
+    fillZero (pre ++ rest) lo hi = some (pre ++ zeros (hi - lo) ++ rest.drop (hi - lo)) := by
+  unfold fillZero
+  rw [if_pos hlh, writeAt_pre pre rest _ lo ho (by simpa using hs)]
+  simp
+
+/-- header then value written over the front of `dest`, followed by any continuation -/
+theorem write_steps {β} (k : Bytes → Option β) (hdr value dest : Bytes) (hh : hdr.length = 4)
+    (hd : 4 + value.length ≤ dest.length) :
+    ((writeAt dest 0 hdr).bind fun d => (writeAt d 4 value).bind k) =
+      k (hdr ++ value ++ dest.drop (4 + value.length)) := by
+  have h1 := writeAt_pre [] dest hdr 0 rfl (by omega)
+  simp only [List.nil_append] at h1
+  rw [h1]
+  simp only [Option.bind_some]
+  rw [writeAt_pre hdr (dest.drop hdr.length) value 4 hh.symm (by simp; omega)]
+  simp [hh]
+
+theorem fill_branch (hdr value dest : Bytes) (hh : hdr.length = 4)
+    (hd : 4 + round4 value.length ≤ dest.length) :
+    fillZero (hdr ++ value ++ dest.drop (4 + value.length)) (4 + value.length)
+        (4 + round4 value.length) =
+      some (hdr ++ value ++ zeros (pad4 value.length) ++ dest.drop (4 + round4 value.length)) := by
+  have e : 4 + round4 value.length - (4 + value.length) = pad4 value.length := by
+    unfold round4; omega
+  rw [fillZero_pre (hdr ++ value) _ _ _ (by simp [hh]) (by unfold round4; omega)
+    (by rw [e]; simp; unfold round4 at hd; omega), e]
+  simp [round4]
+  omega
+
+theorem nofill_branch (hdr value dest : Bytes) (hp : pad4 value.length = 0) :
+    hdr ++ value ++ dest.drop (4 + value.length) =
+      hdr ++ value ++ zeros (pad4 value.length) ++ dest.drop (4 + round4 value.length) := by
+  simp [round4, hp]
+
+/-! ### raw attributes -/
+
+/-- the wire form: header, value, zero padding to a multiple of four -/
+def wireForm (ty : Nat) (value : Bytes) : Bytes :=
+  enc16 ty ++ enc16 value.length ++ value ++ zeros (pad4 value.length)
+
+theorem wireForm_length (ty : Nat) (value : Bytes) :
+    (wireForm ty value).length = 4 + round4 value.length := by
+  simp [wireForm, round4]; omega
+
+theorem toBytes_eq (a : RawAttr) : a.toBytes = wireForm a.ty a.value := by
+  unfold RawAttr.toBytes wireForm
+  simp only [List.length_append, enc16_length]
+  by_cases h : a.value.length % 4 = 0
+  · have h1 : ¬ ((2 + 2 + a.value.length) % 4 ≠ 0) := by omega
+    rw [if_neg h1, pad4_eq_zero h]; simp
+  · have h1 : (2 + 2 + a.value.length) % 4 ≠ 0 := by omega
+    have h2 : 4 - (2 + 2 + a.value.length) % 4 = pad4 a.value.length := by unfold pad4; omega
+    rw [if_pos h1, h2]
+
+theorem raw_paddedLen (a : RawAttr) (h : a.value.length < 65536) :
+    a.paddedLen = 4 + round4 a.value.length := by
+  unfold RawAttr.paddedLen
+  rw [Nat.mod_eq_of_lt h, paddedAttrLen_eq]
+
+theorem raw_writeUnchecked (a : RawAttr) (dest : Bytes) (h : a.value.length < 65536)
+    (hd : a.paddedLen ≤ dest.length) :
+    a.writeIntoUnchecked dest = some (wireForm a.ty a.value ++ dest.drop a.paddedLen) := by
+  have hp := raw_paddedLen a h
+  have hn : 4 + a.value.length ≤ dest.length := by
+    rw [hp] at hd; unfold round4 at hd; omega
+  unfold RawAttr.writeIntoUnchecked
+  simp only [Option.bind_eq_bind]
+  rw [write_steps _ _ _ _ (by simp) hn]
+  rw [hp] at hd ⊢
+  by_cases hz : pad4 a.value.length = 0
+  · rw [if_neg (by unfold round4; omega)]
+    unfold wireForm
+    rw [← nofill_branch _ _ _ hz]
+  · rw [if_pos (by unfold round4; omega), fill_branch _ _ _ (by simp) hd]
+    rfl
+
+theorem raw_write (a : RawAttr) (dest : Bytes) (h : a.value.length < 65536)
+    (hd : a.paddedLen ≤ dest.length) :
+    a.writeInto dest = .ok (a.paddedLen, a.toBytes ++ dest.drop a.paddedLen) := by
+  unfold RawAttr.writeInto
+  rw [if_neg (by omega), raw_writeUnchecked a dest h hd, toBytes_eq]
+
+theorem raw_write_short (a : RawAttr) (dest : Bytes) (hd : dest.length < a.paddedLen) :
+    a.writeInto dest = .error (.tooSmall a.paddedLen dest.length) := by
+  unfold RawAttr.writeInto
+  rw [if_pos (by omega)]
+
+/-! ### typed attributes -/
+
+theorem addr_valueBytes_length (a : Addr) (h : a.wf = true) :
+    a.valueBytes.length = 8 ∨ a.valueBytes.length = 20 := by
+  obtain ⟨v6, ip, port⟩ := a
+  cases v6 <;> simp [Addr.wf] at h <;> simp [Addr.valueBytes, h.1]
+
+theorem inLimit_length_lt (v : AttrVal) (h : v.inLimit = true) : v.valueBytes.length < 65536 := by
+  cases v with
+  | unknownAttributes ts =>
+    simp [AttrVal.inLimit] at h
+    simp only [AttrVal.valueBytes, flatMap_enc16_length]; omega
+  | passwordAlgorithms as =>
+    simp [AttrVal.inLimit] at h
+    simp only [pwas_valueBytes, flatMap_algoEntry_length]; omega
+  | xorMappedAddress a =>
+    have := addr_valueBytes_length a h
+    simp only [AttrVal.valueBytes]; omega
+  | alternateServer a =>
+    have := addr_valueBytes_length a h
+    simp only [AttrVal.valueBytes]; omega
+  | fingerprint crc =>
+    simp [AttrVal.inLimit] at h
+    simp [AttrVal.valueBytes, xorBytes_length, h, fpXorConst]
+  | _ => simp [AttrVal.inLimit] at h <;> simp [AttrVal.valueBytes] <;> omega
+
+theorem inLimit_mod4 (v : AttrVal) (h : v.inLimit = true) (hf : v.kind.fillsPadding = false) :
+    v.valueBytes.length % 4 = 0 := by
+  cases v with
+  | xorMappedAddress a =>
+    have := addr_valueBytes_length a h
+    simp only [AttrVal.valueBytes]; omega
+  | alternateServer a =>
+    have := addr_valueBytes_length a h
+    simp only [AttrVal.valueBytes]; omega
+  | fingerprint crc =>
+    simp [AttrVal.inLimit] at h
+    simp [AttrVal.valueBytes, xorBytes_length, h, fpXorConst]
+  | username _ | realm _ | nonce _ | software _ | alternateDomain _ | errorCode _ _
+  | unknownAttributes _ | passwordAlgorithm _ | passwordAlgorithms _ =>
+    simp [AttrVal.kind, Kind.fillsPadding] at hf
+  | _ => simp [AttrVal.inLimit] at h <;> simp [AttrVal.valueBytes] <;> omega
+
+theorem typed_paddedLen (v : AttrVal) : v.paddedLen = 4 + round4 v.valueBytes.length := by
+  unfold AttrVal.paddedLen AttrVal.length
+  rw [paddedAttrLen_eq]
+
+theorem typed_raw_paddedLen (v : AttrVal) (h : v.inLimit = true) : v.toRaw.paddedLen = v.paddedLen := by
+  rw [raw_paddedLen _ (inLimit_length_lt v h), typed_paddedLen]; rfl
+
+theorem typed_writeUnchecked (v : AttrVal) (dest : Bytes) (hl : v.inLimit = true)
+    (hd : v.paddedLen ≤ dest.length) :
+    v.writeIntoUnchecked dest =
+      some (wireForm v.kind.code v.valueBytes ++ dest.drop v.paddedLen) := by
+  have hp := typed_paddedLen v
+  have hn : 4 + v.valueBytes.length ≤ dest.length := by
+    rw [hp] at hd; unfold round4 at hd; omega
+  unfold AttrVal.writeIntoUnchecked
+  simp only [Option.bind_eq_bind, AttrVal.length]
+  rw [write_steps _ _ _ _ (by simp) hn]
+  rw [hp] at hd ⊢
+  by_cases hz : pad4 v.valueBytes.length = 0
+  · have : ¬ (4 + round4 v.valueBytes.length > 4 + v.valueBytes.length) := by unfold round4; omega
+    simp only [this, decide_false, Bool.and_false]
+    unfold wireForm
+    rw [← nofill_branch _ _ _ hz]
+    rfl
+  · have hfill : v.kind.fillsPadding = true := by
+      cases hf : v.kind.fillsPadding
+      · have := inLimit_mod4 v hl hf
+        exact absurd (pad4_eq_zero this) hz
+      · rfl
+    have : 4 + round4 v.valueBytes.length > 4 + v.valueBytes.length := by unfold round4; omega
+    simp only [hfill, this, decide_true, Bool.and_true]
+    rw [if_pos trivial, fill_branch _ _ _ (by simp) hd]
+    rfl
+
+theorem typed_write (v : AttrVal) (dest : Bytes) (hl : v.inLimit = true)
+    (hd : v.paddedLen ≤ dest.length) :
+    v.writeInto dest = .ok (v.paddedLen, v.toRaw.toBytes ++ dest.drop v.paddedLen) := by
+  unfold AttrVal.writeInto
+  rw [if_neg (by omega), typed_writeUnchecked v dest hl hd, toBytes_eq]
+  rfl
+
+theorem typed_write_short (v : AttrVal) (dest : Bytes) (hd : dest.length < v.paddedLen) :
+    v.writeInto dest = .error (.tooSmall v.paddedLen dest.length) := by
+  unfold AttrVal.writeInto
+  rw [if_pos (by omega)]
+
+/-! ### the builder -/
+
+/-- in-limit (typed) or at most 65535 bytes (raw) -/
+def BAttr.Ok : BAttr → Prop
+  | .typed v => v.inLimit = true
+  | .raw a => a.value.length < 65536
+
+theorem battr_write (a : BAttr) (hok : a.Ok) (dest : Bytes) (hd : a.paddedLen ≤ dest.length) :
+    a.writeInto dest = .ok (a.paddedLen, a.asRaw.toBytes ++ dest.drop a.paddedLen) := by
+  cases a with
+  | typed v => exact typed_write v dest hok hd
+  | raw r => exact raw_write r dest hok hd
+
+theorem battr_toBytes_length (a : BAttr) (hok : a.Ok) : a.asRaw.toBytes.length = a.paddedLen := by
+  cases a with
+  | typed v =>
+    simp only [BAttr.asRaw, BAttr.paddedLen, toBytes_eq, wireForm_length, typed_paddedLen]; rfl
+  | raw r =>
+    simp only [BAttr.asRaw, BAttr.paddedLen, toBytes_eq, wireForm_length, raw_paddedLen r hok]
+
+theorem battr_owned (a : BAttr) (hok : a.Ok) :
+    a.intoOwned.Ok ∧ a.intoOwned.paddedLen = a.paddedLen ∧ a.intoOwned.asRaw = a.asRaw := by
+  cases a with
+  | typed v => exact ⟨inLimit_length_lt v hok, typed_raw_paddedLen v hok, rfl⟩
+  | raw r => exact ⟨hok, rfl, rfl⟩
+
+def sumPadded (as : List BAttr) : Nat := (as.map BAttr.paddedLen).sum
+
+theorem writeAttrs_eq (as : List BAttr) (hok : ∀ a ∈ as, a.Ok) (pre rest : Bytes) (off : Nat)
+    (hoff : off = pre.length) (hlen : sumPadded as ≤ rest.length) :
+    writeAttrs as (pre ++ rest) off =
+      .ok (off + sumPadded as,
+        pre ++ as.flatMap (fun a => a.asRaw.toBytes) ++ rest.drop (sumPadded as)) := by
+  induction as generalizing pre rest off with
+  | nil => simp [writeAttrs, sumPadded]
+  | cons a as ih =>
+    have hoka : a.Ok := hok a (by simp)
+    have hoks : ∀ b ∈ as, b.Ok := fun b hb => hok b (by simp [hb])
+    have hs : sumPadded (a :: as) = a.paddedLen + sumPadded as := by simp [sumPadded]
+    rw [hs] at hlen ⊢
+    subst hoff
+    unfold writeAttrs
+    have hdrop : (pre ++ rest).drop pre.length = rest := by simp
+    have htake : (pre ++ rest).take pre.length = pre := by simp
+    rw [hdrop, battr_write a hoka rest (by omega)]
+    simp only [htake]
+    rw [← List.append_assoc]
+    rw [ih hoks (pre ++ a.asRaw.toBytes) (rest.drop a.paddedLen) _
+      (by simp [battr_toBytes_length a hoka]) (by simp; omega)]
+    simp [List.flatMap_cons]
+    omega
+
+theorem header_length (ty len tid : Nat) :
+    (enc16 ty ++ enc16 len ++ cookieBytes ++ encBE 12 tid).length = 20 := by
+  simp [cookieBytes]
+
+theorem builder_writeInto (b : Builder) (hb : ∀ a ∈ b.attrs, a.Ok) (dest : Bytes)
+    (hd : b.byteLen ≤ dest.length) :
+    b.writeInto dest = .ok (b.byteLen,
+      enc16 b.ty ++ enc16 (b.byteLen - 20) ++ cookieBytes ++ encBE 12 b.tid ++
+        b.attrs.flatMap (fun a => a.asRaw.toBytes) ++ dest.drop b.byteLen) := by
+  have hbl : b.byteLen = 20 + sumPadded b.attrs := rfl
+  unfold Builder.writeInto
+  simp only []
+  rw [if_neg (by omega)]
+  rw [writeAttrs_eq b.attrs hb _ (dest.drop 20) 20 (header_length _ _ _).symm (by simp; omega)]
+  simp [hbl]
+
+theorem builder_build (b : Builder) (hb : ∀ a ∈ b.attrs, a.Ok) :
+    b.build = enc16 b.ty ++ enc16 (b.byteLen - 20) ++ cookieBytes ++ encBE 12 b.tid ++
+        b.attrs.flatMap (fun a => a.asRaw.toBytes) := by
+  unfold Builder.build
+  simp only []
+  rw [builder_writeInto b hb (zeros b.byteLen) (by simp)]
+  simp [zeros]
+
+theorem flatMap_toBytes_length (as : List BAttr) (hok : ∀ a ∈ as, a.Ok) :
+    (as.flatMap (fun a => a.asRaw.toBytes)).length = sumPadded as := by
+  induction as with
+  | nil => rfl
+  | cons a as ih =>
+    have hoka : a.Ok := hok a (by simp)
+    have hoks : ∀ b ∈ as, b.Ok := fun b hb => hok b (by simp [hb])
+    simp [List.flatMap_cons, sumPadded, battr_toBytes_length a hoka] 
+    have := ih hoks
+    simp [sumPadded] at this
+    omega
+
+theorem builder_build_length (b : Builder) (hb : ∀ a ∈ b.attrs, a.Ok) :
+    b.build.length = b.byteLen := by
+  rw [builder_build b hb, List.length_append, header_length, flatMap_toBytes_length _ hb]
+  rfl
+
+theorem flatMap_congr' {α β} (l : List α) (f g : α → List β) (h : ∀ a ∈ l, f a = g a) :
+    l.flatMap f = l.flatMap g := by
+  induction l with
+  | nil => rfl
+  | cons a l ih =>
+    simp only [List.flatMap_cons]
+    rw [h a (by simp), ih (fun b hb => h b (by simp [hb]))]
+
+theorem builder_owned (b : Builder) (hb : ∀ a ∈ b.attrs, a.Ok) :
+    (∀ a ∈ b.intoOwned.attrs, a.Ok) ∧ b.intoOwned.byteLen = b.byteLen ∧
+    b.intoOwned.attrs.flatMap (fun a => a.asRaw.toBytes) =
+      b.attrs.flatMap (fun a => a.asRaw.toBytes) := by
+  refine ⟨?_, ?_, ?_⟩
+  · intro a ha
+    simp only [Builder.intoOwned, List.mem_map] at ha
+    obtain ⟨a', ha', rfl⟩ := ha
+    exact (battr_owned a' (hb a' ha')).1
+  · simp only [Builder.byteLen, Builder.intoOwned, List.map_map]
+    congr 2
+    apply List.map_congr_left
+    intro a ha
+    exact (battr_owned a (hb a ha)).2.1
+  · simp only [Builder.intoOwned, List.flatMap_map]
+    apply flatMap_congr'
+    intro a ha
+    simp [(battr_owned a (hb a ha)).2.2]
+
 end StunVerif
